@@ -209,7 +209,8 @@ impl G {
             Var(id) if c < 8 => { let b = env.0.get(id).unwrap().clone(); self.supertype(env, &b, depth - 1) }
             Nat if c < 9 => ty(Int),
             Empty => self.typ(1),
-            Opt(a) => ty(Opt(self.supertype(env, a, depth - 1))),
+            // everything is a subtype of an option: below `opt` the step may also be a breaking one (the value then reads as null)
+            Opt(a) => if self.rng.gen_bool(0.35) { ty(Opt(self.related(env, a, depth - 1))) } else { ty(Opt(self.supertype(env, a, depth - 1))) },
             Vec(a) => ty(Vec(self.supertype(env, a, depth - 1))),
             Record(fs) => {
                 let mut out: std::vec::Vec<Field> = vec![];
